@@ -54,6 +54,9 @@ def owner_of(P, f):
 
 
 def run(ctx):
+    # locals / parameters the rules below refer to by name (a rename makes the analysis 'broken', never a violation)
+    ctx.anchor(ctx.fn1('Oomd::FsDropInService::processDropInAdd'), 'file')
+    ctx.anchor(ctx.fn1('Oomd::FsDropInService::processDropInRemove'), 'file')
     P, cg = ctx.prog, ctx.cg
     LA = LockAnalysis(P, cg)
     run_f = ctx.fn1("Oomd::FsDropInService::run")
